@@ -22,7 +22,14 @@ import (
 
 type Rng struct{ s uint64 }
 
-func NewRng(seed uint64) *Rng { return &Rng{s: seed*0x9E3779B97F4A7C15 + 0x1234567} }
+// NewRng scrambles the seed through the splitmix64 finalizer so that consecutive seeds start far
+// apart on the generator's orbit (seed*gamma would put seed n exactly n draws behind seed n+1).
+func NewRng(seed uint64) *Rng {
+	z := seed + 0x632BE59BD9B4E019
+	z = (z ^ (z >> 30)) * 0xBF58476D1CE4E5B9
+	z = (z ^ (z >> 27)) * 0x94D049BB133111EB
+	return &Rng{s: z ^ (z >> 31)}
+}
 
 func (r *Rng) U64() uint64 {
 	r.s += 0x9E3779B97F4A7C15
@@ -245,8 +252,17 @@ func (e *Env) Thorough() bool { return e.Tier == "thorough" }
 
 // N picks a budget by tier (search mode uses the thorough budget).
 func (e *Env) N(quick, thorough int) int {
-	if e.Thorough() || e.Search {
+	if e.Thorough() {
 		return thorough
+	}
+	if e.Search {
+		// search mode (a proof / Tie / correspondence broke): a few times the quick budget per seed,
+		// bounded so that three seeds stay within minutes
+		n := quick * 4
+		if n > thorough {
+			n = thorough
+		}
+		return n
 	}
 	return quick
 }
